@@ -363,8 +363,13 @@ fn main() {
         "tables" => tables::print_tables(),
         "purity" => mode_purity(),
         "lex" => mode_lex(),
+        // facts about syn that theorems take as premises on the oracle
+        "synfacts" => {
+            println!("empty_expr_valid\t{}", syn::parse2::<syn::Expr>(proc_macro2::TokenStream::new()).is_ok());
+            println!("empty_type_valid\t{}", syn::parse2::<syn::Type>(proc_macro2::TokenStream::new()).is_ok());
+        }
         _ => {
-            eprintln!("usage: jharness expand|oracle|tables|purity");
+            eprintln!("usage: jharness expand|oracle|tables|purity|lex|synfacts");
             std::process::exit(2);
         }
     }
